@@ -62,3 +62,9 @@ func VerifCode128DecodeCode(row *gozxing.BitArray, counters []int, rowOffset int
 func VerifUPCEANDecodeDigit(row *gozxing.BitArray, counters []int, rowOffset int, patterns [][]int) (int, error) {
 	return upceanReader_decodeDigit(row, counters, rowOffset, patterns)
 }
+
+// VerifCode128FindStartPattern exposes the Code 128 start-pattern search
+// (returns {start, end, start code}).
+func VerifCode128FindStartPattern(row *gozxing.BitArray) ([]int, error) {
+	return code128FindStartPattern(row)
+}
